@@ -672,6 +672,14 @@ def witness_table():
                 (f"if (x {sym[bad]} A) inside an optional block", [px, _opt([pifm(bad, ["A"], [pd("a")])])]),
             ):
                 T.append((werr, pcc, [pcont(mem), [], [dk]], ov_p, f"pipeline, {kind.lower()}: {desc}"))
+
+    # enumerator values: decimal, hexadecimal, binary and (up to eight byte) string forms are numbers, anything else is reported
+    dvs = _D + "DefinerValue::from_str"
+    for text, want_int in (("10", 10), ("0", 0), ("-1", -1), ("0x0A", 10), ("0xff", 255), ("0x7FFFFFFFFFFFFFFF", (1 << 63) - 1), ("0b101", 5), ("0b0", 0),
+                           ('"Win"', int.from_bytes(b"Win", "big")), ('"x86"', int.from_bytes(b"x86", "big")), ("255", 255), ("4294967295", (1 << 32) - 1)):
+        T.append((("value", want_int), dvs, [text, "T", "A", None], {}, f"enumerator value {text}"))
+    for text in ("abc", "1.5", "", "1_000", " 1", "ten", "A", "1e3"):
+        T.append(("invalid_definer_value", dvs, [text, "T", "A", None], {}, f"enumerator value `{text}` (not a number)"))
     it = _PC + "parsed_tags::ParsedTags::into_tags"
     ov = {"::ObjectTags::from_parsed": lambda args: ("tags-built",), "::into_bool": lambda args: False, "::into_bool_with_default": lambda args: False}
     T += [("object_has_both_versions", it, [_tags(["w1"], ["l1"]), "T", None, False], ov, "object with world and login versions"),
@@ -707,13 +715,19 @@ def check_witnesses(ctx, FB):
         m.overrides = {"::error_printer::" + nm: hit(nm) for nm in err_names}
         m.overrides.update(extra)
         got = None
+        ret = None
         try:
             import copy
-            m.call_fn(fnp, [_fill(a) for a in copy.deepcopy(args)])
+            ret = m.call_fn(fnp, [_fill(a) for a in copy.deepcopy(args)])
         except _Hit as h:
             got = h.name
         except (Unsupported, Panic) as e:
             ctx.violate("rule.witness", f"{fnp}|shape|{desc}", f"{fnp.split('::')[-2]}::{fnp.split('::')[-1]} on `{desc}`: not interpretable — review ({type(e).__name__}: {e})", fn["file"], fn["line"])
+            continue
+        if isinstance(want, tuple) and want[0] == "value":
+            val = ret[2].get("int") if isinstance(ret, tuple) and ret and ret[0] == "struct" else None
+            if got is not None or val != want[1]:
+                ctx.violate("rule.witness", f"{fnp}|{desc}", f"{fnp.split('::')[-2]}::{fnp.split('::')[-1]}: `{desc}` is read as {val if got is None else 'an error (' + got + ')'}, it is the number {want[1]}", fn["file"], fn["line"])
             continue
         if got != want:
             if want is None:
